@@ -10,7 +10,9 @@
 (*                         end_p, end_v, end_a, end_j>>  (booleans)        *)
 (*   rho, K              energy weight, trapezoid steps per segment        *)
 (*   tm                  [kind |-> "quad"] or [kind |-> "sq", scale |-> r] *)
-(*   sm                  [kind |-> "id"] or [kind |-> "lift", gain |-> r]  *)
+(*   sm                  [kind |-> "id"] or [kind |-> "lift", gain |-> r,  *)
+(*                       pin |-> point index with a single unconstrained   *)
+(*                       coordinate, or -1]                                *)
 (* A cost description cp holds the parameters of the polynomial functor    *)
 (* family of harness/opt_iface.hpp (CostParams) as rationals, plus an      *)
 (* optional "lie": a wrong claimed partial derivative.                     *)
@@ -24,22 +26,23 @@ Flat2(ss0) == LET ss == Force(ss0)  F[i \in 0..Len(ss)] == IF i = 0 THEN <<>> EL
 TMapVal(tm, tau) == IF tm.kind = "quad" THEN ToTime(tau) ELSE RMul(tm.scale, RAdd(RSq(tau), One))
 TMapD(tm, tau) == IF tm.kind = "quad" THEN DToTime(tau) ELSE RMul(RMul("2", tm.scale), tau)
 \* the lift map of the harness: fewer unconstrained than physical coordinates
-LiftDof(D, idx) == IF D - 1 - (idx - (idx \div 2) * 2) > 1 THEN D - 1 - (idx - (idx \div 2) * 2) ELSE 1
+LiftDof0(D, idx) == IF D - 1 - (idx - (idx \div 2) * 2) > 1 THEN D - 1 - (idx - (idx \div 2) * 2) ELSE 1
+LiftDof(cfg, idx) == IF idx = cfg.sm.pin THEN 1 ELSE LiftDof0(cfg.D, idx)
 LiftM(j, k) == RFrac(((j + 2 * k) - ((j + 2 * k) \div 3) * 3) - 1, 2)          \* j, k zero-based
-DofOf(cfg, idx) == IF cfg.sm.kind = "id" THEN cfg.D ELSE LiftDof(cfg.D, idx)
+DofOf(cfg, idx) == IF cfg.sm.kind = "id" THEN cfg.D ELSE LiftDof(cfg, idx)
 \* xi (sequence of dof rationals) -> physical point (sequence of D rationals), idx = global point index 0..N
 SMapVal(cfg, xi, idx) ==
     IF cfg.sm.kind = "id" THEN xi
-    ELSE LET dof == LiftDof(cfg.D, idx)
+    ELSE LET dof == LiftDof(cfg, idx)
          IN Force([j1 \in 1..cfg.D |->
                 IF j1 <= dof THEN xi[j1]
                 ELSE RAdd(RMul(cfg.sm.gain, RInt(idx + 1)), RSum([k1 \in 1..dof |-> RMul(LiftM(j1 - 1, k1 - 1), xi[k1])]))])
 \* transpose Jacobian applied to a physical gradient
 SMapBackS(cfg, g, idx) ==
     IF cfg.sm.kind = "id" THEN g
-    ELSE LET dof == LiftDof(cfg.D, idx)
+    ELSE LET dof == LiftDof(cfg, idx)
          IN Force([k1 \in 1..dof |-> RAdd(g[k1], RSum([q \in 1..(cfg.D - dof) |-> RMul(LiftM(dof + q - 1, k1 - 1), g[dof + q])]))])
-SMapInv(cfg, p, idx) == IF cfg.sm.kind = "id" THEN p ELSE SubSeq(p, 1, LiftDof(cfg.D, idx))
+SMapInv(cfg, p, idx) == IF cfg.sm.kind = "id" THEN p ELSE SubSeq(p, 1, LiftDof(cfg, idx))
 
 (* ------------------------------ layout (C09) -------------------------- *)
 \* one time variable per segment; then the spatial variables of each optimised waypoint in index order (inner always,
